@@ -264,12 +264,12 @@ def universes(tier, seed):
     if tier == "quick":
         return [("small", gen_cfg("NegotiateGen.small.cfg", nmin=1, nc=3, refmode="all", maxw=3, rich=False)),
                 ("n4", gen_cfg("NegotiateGen.n4.cfg", nmin=4, nc=4, refmode="some", maxw=2, rich=False, clocks_a=(1,))),
-                ("ladder", gen_cfg("NegotiateGen.ladder.cfg", mode="ladder", depths=(0, 2), ladder=(10, 40, 6)))]
+                ("ladder", gen_cfg("NegotiateGen.ladder.cfg", mode="ladder", depths=(0, 2, 25), ladder=(10, 40, 6)))]
     return [("small", gen_cfg("NegotiateGen.small.cfg", nmin=1, nc=3, refmode="all", maxw=3, rich=True)),
             ("n4", gen_cfg("NegotiateGen.n4.cfg", nmin=4, nc=4, refmode="all", maxw=3, rich=False, clocks_a=(1,))),
             ("n5", gen_cfg("NegotiateGen.n5.cfg", nmin=5, nc=5, refmode="some", maxw=2, rich=False, clocks_a=(1,),
                            slice_=(seed % SLICES, SLICES))),
-            ("ladder", gen_cfg("NegotiateGen.ladder.cfg", mode="ladder", depths=(0, 1, 2), ladder=(10, 40, 2)))]
+            ("ladder", gen_cfg("NegotiateGen.ladder.cfg", mode="ladder", depths=(0, 1, 2, 25, 60), ladder=(10, 40, 2)))]
 
 
 def run(tier, seed):
